@@ -119,8 +119,12 @@ def generate(prop, rng, run, tier):
         files[out] = b"#TITLE:old output;\n".hex()
         if rng.random() < 0.3:
             files[out + rng.choice([".tmp", ".bak", "~", ".new"])] = b"neighbour of output".hex()
-    elif r < 0.93:
+    elif r < 0.90:
         out = inp                      # output name equal to the input name
+    elif r < 0.94:
+        i = inp.rfind("/")             # the same file under another spelling
+        out = rng.choice([inp[:i] + "/./" + inp[i + 1:], inp[:i] + "//" + inp[i + 1:],
+                          d + "/../" + song + "/" + inp[i + 1:]])
     else:
         out = "/Pack/elsewhere" + ext
     r = rng.random()
@@ -148,6 +152,12 @@ def generate(prop, rng, run, tier):
         if op["op"] in ("charts_append", "charts_insert"):
             nch += 1
     edit = gen.flatten_ops(edit)
+    if rng.random() < 0.08:
+        # somebody else rewrites the input file on disk while the block runs (a nested
+        # mutate, another program): what was read at block entry is what counts
+        other = gen.gen_simfile_text(rng, fmt, "plain", nparams=2, ncharts=0)
+        edit.insert(rng.randint(0, len(edit)), {"op": "external_write",
+                                               "hex": other.encode("utf-8").hex()})
     sc = {"workload": "mutate", "property": prop,
           "config": {"facade": facade, "fmt": fmt, "input": inp, "output": out, "backup": bak,
                      "try_encodings": try_enc, "strict": rng.random() < 0.7},
@@ -265,6 +275,7 @@ def run_once(sc, fault=None, body_raise=None, spoil=None, noop_on=None, hooks=No
     o.model_exit = None
     o.op_mismatch = None
     o.invariant = None
+    o.external = None
     spelling = cfg.get("spelling")
     inp = cfg["input"] if noop_on is None else noop_on
     out = cfg.get("output") if noop_on is None else None
@@ -301,6 +312,11 @@ def run_once(sc, fault=None, body_raise=None, spoil=None, noop_on=None, hooks=No
                     if body_raise is not None and body_raise[0] == i:
                         o.raised_obj = excs[body_raise[1]]("body-raise")
                         raise o.raised_obj
+                    if op["op"] == "external_write":
+                        if hasattr(disk, "faults"):          # simulated disk only
+                            disk.files[norm(inp)] = bytearray(bytes.fromhex(op["hex"]))
+                            o.external = bytes.fromhex(op["hex"])
+                        continue
                     res = ops.apply_op(sf, model, op, strings, lib, fmt)
                     if res is not None and res[0] != res[1] and o.op_mismatch is None:
                         o.op_mismatch = (i, op, res)
@@ -622,10 +638,12 @@ def check_c05(sc, res):
                         expected=_exit_expect_plain(model_entry))
             return
         res.stats["probe:backup-written"] += 1
-    if out and out_path != inp and after_files.get(inp) != data:
+    if out and out_path != inp and after_files.get(inp) not in (data, o.external):
         res.violate(P, "input-touched-although-output-given")
         return
     allowed = {out_path} | ({norm(bak)} if bak else set())
+    if o.external is not None:
+        allowed = allowed | {inp}        # rewritten by the other program, not by the library
     extra = _changed_paths(o.before, o.after) - allowed
     if extra:
         res.violate(P, "other-paths-changed", paths=sorted(extra))
@@ -843,10 +861,10 @@ def check_c06(sc, res):
             # scratch file may be left behind by a kill): counted, not judged.  Only a body
             # that raises must leave the whole disk untouched (sub_body).
             res.stats["probe:other-paths-changed-after-failed-save"] += 1
-        if out_path != inp and files.get(inp) != data:
+        if out_path != inp and files.get(inp) not in (data, o.external):
             res.violate(P, "input-changed-although-output-given", sub=label, **extra)
             return False
-        if files.get(inp) != data:
+        if files.get(inp) not in (data, o.external):
             # the input was (partly) overwritten: allowed only if the complete new
             # content was written, or a requested backup is complete
             if bak_path and entry_ok:
@@ -861,8 +879,11 @@ def check_c06(sc, res):
         res.evaluations += 1
         res.stats["fault:body-raise:" + exc] += 1
         extra = {"pos": pos, "exc": exc}
-        if _changed_paths(o.before, o.after):
-            res.violate(P, "body-raise-changed-disk", paths=sorted(_changed_paths(o.before, o.after)), **extra)
+        changed_b = _changed_paths(o.before, o.after)
+        if o.external is not None and o.after[0].get(inp) == o.external:
+            changed_b = changed_b - {inp}        # the other program's write, not the library's
+        if changed_b:
+            res.violate(P, "body-raise-changed-disk", paths=sorted(changed_b), **extra)
             return
         if any(e[1] in WRITE_SIDE for e in o.disk.events):
             res.violate(P, "body-raise-write-call", **extra)
@@ -898,7 +919,7 @@ def check_c06(sc, res):
             res.violate(P, "unsaveable-simfile-saved-silently", spoil=spoil)
             return
         files = o.after[0]
-        if files.get(inp) != data:
+        if files.get(inp) not in (data, o.external):
             res.violate(P, "input-damaged-by-failed-save", spoil=spoil, escaped=repr(o.escaped),
                         remaining=len(files.get(inp, b"")), original=len(data))
             return
@@ -940,7 +961,7 @@ def check_c06(sc, res):
             # an injected error that vanished: the library reported success although a
             # storage call failed.  Not claimed by the property -> only counted.
             res.stats["probe:error-swallowed"] += 1
-        if fault["kind"] == "err" and call_kind == OPEN_W and files.get(inp) != data:
+        if fault["kind"] == "err" and call_kind == OPEN_W and files.get(inp) not in (data, o.external):
             # "a file cannot be opened for writing": the input still holds its original bytes
             res.violate(P, "input-damaged-although-open-for-writing-failed", **extra)
             return
@@ -950,7 +971,7 @@ def check_c06(sc, res):
             res.stats["probe:fault-after-backup-complete"] += 1
         if bak_path and call_path == bak_path:
             res.stats["probe:fault-while-writing-backup"] += 1
-            if files.get(inp) != data:
+            if files.get(inp) not in (data, o.external):
                 res.violate(P, "input-touched-before-backup-finished", **extra)
                 return
         res.note("fault", shape, fault["kind"], fault.get("errno"), k)
